@@ -65,7 +65,21 @@ impl Write for SchedSink {
 		}
 		if choice == 2 && self.may_fail {
 			self.saw_hard_error = true;
-			return Err(Error::from(ErrorKind::StorageFull));
+			// any kind other than Interrupted is a hard error for the caller (EAGAIN/WouldBlock included:
+			// retrying it would swallow the error or spin)
+			let kinds = [
+				ErrorKind::StorageFull,
+				ErrorKind::WouldBlock,
+				ErrorKind::TimedOut,
+				ErrorKind::BrokenPipe,
+				ErrorKind::Other,
+				ErrorKind::UnexpectedEof,
+				ErrorKind::PermissionDenied,
+				ErrorKind::ConnectionReset,
+			];
+			let which: usize = kani::any();
+			kani::assume(which < 8);
+			return Err(Error::from(kinds[which]));
 		}
 		let k: usize = kani::any();
 		kani::assume(k <= offered);
@@ -139,7 +153,7 @@ fn c16_vectored_partial_writes() {
 //@ harness: c16_vectored_interrupts_and_errors
 //@   props: C16
 //@   tier: quick
-//@   kind: bounded(three slices of length 0..=1, <= 2 Interrupted results, hard error allowed at any call)
+//@   kind: bounded(three slices of length 0..=1, <= 2 Interrupted results, hard error of any of 8 non-Interrupted kinds (incl. WouldBlock, TimedOut) allowed at any call)
 //@   fn: object_container_file_encoding::writer::vectored_write_polyfill::write_all_vectored_inner
 //@   domain: every schedule mixing partial writes, up to 2 interruptions and a hard error at any call index
 //@   post: Interrupted is retried without losing/duplicating data; a hard error is returned to the caller; on Err the sink holds a prefix
@@ -157,7 +171,7 @@ fn c16_vectored_interrupts_and_errors() {
 //@ harness: c16_vectored_thorough
 //@   props: C16
 //@   tier: thorough
-//@   kind: bounded(three slices of length 0..=2, <= 1 Interrupted result, hard error allowed at any call)
+//@   kind: bounded(three slices of length 0..=2, <= 1 Interrupted result, hard error of any of 8 non-Interrupted kinds (incl. WouldBlock, TimedOut) allowed at any call)
 //@   fn: object_container_file_encoding::writer::vectored_write_polyfill::write_all_vectored_inner
 //@   domain: every (l0,l1,l2) in 0..=2, every schedule of acceptances / one interruption / hard error
 //@   post: as c16_vectored_interrupts_and_errors (the 0..=3 / 2-interruption version exhausts 12 GB and was reduced under the fallback rule)
